@@ -382,6 +382,13 @@ def scen_merge(rng, n):
     out.append(("(conc C11-%d (pipe (subject a plain) (subject b plain) (subject s plain) (sub (flat_map (fm_ref a b) (ref s)) (react)) "
                 "(hnext s 0) (hnext s 1) (drive a (0 (n 1)) (0 (n 2)) (0 c)) (drive b (0 (n 11)) (0 (n 12)) (0 c)) (drive s (0 c))))" % i,
                 ("merge", [[1, 2], [11, 12]], None))); i += 1
+    # an order-insensitive aggregate DOWNSTREAM of a merge whose inputs emit from three threads: what the merge conserves
+    # must also survive the next operator (its fold runs on whichever thread delivers)
+    for agg in ("(sum %s)", "(count %s)", "(max %s)", "(min %s)", "(sum_and_count %s)", "(reduce add %s)", "(reduce max %s)", "(count (buffer_with_count 1 %s))"):
+        # (not `last(scan ..)`: scan emits outside its accumulator lock, so the LAST emission need not be the last fold)
+        for lists in ([[1, 2], [11, 12], [21]], [[1, 2, 3], [10, 20, 30]]):
+            p = agg % ("(merge %s)" % " ".join(ts(k, l) for k, l in enumerate(lists)))
+            out.append(("(conc C11-%d (pipe (sub %s (react))))" % (i, p), ("agg", p, None))); i += 1
     # the OUTER items of flat_map arrive from two threads at the same instant (two inner observers are attached
     # concurrently), the hot inners emit afterwards from their own threads
     out.append(("(conc C11-%d (pipe (subject a plain) (subject b plain) (subject s plain) (sub (flat_map (fm_ref a b) (ref s)) (react)) "
@@ -406,6 +413,12 @@ def oracle_merge(payload, info):
     terms = [e[1] for e in evs if e[1][0] != "n"]
     if len(terms) > 1:
         return "more than one terminal"
+    if op == "agg":
+        want = expected_events(strip_threading(lists))
+        got = [e[1] for e in evs]
+        if got != want:
+            return "an order-insensitive aggregate over a merge fed from several threads delivered %s, every sequential order gives %s" % (" ".join(got), " ".join(want))
+        return None
     if tk is not None:
         if len(items) > tk:
             return "take(%d) delivered %d items" % (tk, len(items))
